@@ -103,10 +103,68 @@ PROPS["C34"] = dict(
     note="Trusted: TLC, Json module, strace parser, directory snapshot code in the driver.")
 
 
+# ---------------------------------------------------------------------------------- watch (C44, C45)
+def corrupt_watch(lines, pid):
+    if pid == "C44":
+        # a registered client is skipped by one broadcast
+        for k, e in enumerate(lines):
+            if e.get("ev") == "wake":
+                del lines[k]
+                return "one wake event of a broadcast removed (client %d not notified)" % e["c"]
+        return None
+    if pid == "C45":
+        # close() returns before a handler has finished
+        for k, e in enumerate(lines):
+            if e.get("ev") == "done":
+                for j in range(k + 1, len(lines)):
+                    if lines[j].get("ev") == "reset":
+                        break
+                    if lines[j].get("ev") == "closed":
+                        lines.insert(j, lines.pop(k))
+                        return "done of client %d moved after closed" % e["c"]
+        return None
+
+
+FAMILIES["watch"] = dict(vdrive="watch", trace_module="TraceD2Watch", trace_cfg="TraceD2Watch.cfg", corrupt=corrupt_watch, engine="TraceD2Watch")
+
+_watch_base = dict(
+    quick=[dict(module="D2Watch", cfg="D2Watch_quick.cfg"),
+           dict(module="D2Watch", cfg="D2Watch_live.cfg"),
+           dict(module="D2Watch", cfg="D2Watch_shutdown.cfg"),
+           dict(module="D2Watch", cfg="D2Watch_notifyfirst.cfg", expect="violation", note="broadcast that notifies before storing the result must break LatestDelivered")],
+    thorough=[dict(module="D2Watch", cfg="D2Watch_safety.cfg", timeout=1800),
+              dict(module="D2Watch", cfg="D2Watch_live.cfg"),
+              dict(module="D2Watch", cfg="D2Watch_shutdown.cfg"),
+              dict(module="D2Watch", cfg="D2Watch_notifyfirst.cfg", expect="violation")])
+_watch_rule = ("one trace per watcher lifetime: the real d2cli.Run --watch in-process, a seeded harness schedule of 1-3 websocket clients, 1-4 file changes, hang-ups, "
+               "a quiescence wait, then shutdown racing with late dials; hook calls sleep 0-3 ms with probability 0/30/60 % (seeded), plus one targeted run per hook in which that hook always sleeps 6 ms. "
+               "Non-trivial: ")
+_watch_assume = ["hook events are appended under the lock that protects the state they describe (wsclientsMu / resMu / the trace lock around requestCompile)",
+                 "channel receives, the input read and getRes are announced after the fact; only interval facts are checked for them",
+                 "bounded liveness: 6 s (less than the 10 s poll ticker) for every live client to receive the last version after the last change",
+                 "the http server stops accepting before close() begins, so admission racing with shutdown is explored by the model only",
+                 "poll ticker (10 s) and board-path changes via handleRoot are outside the model (extra compile requests only)"]
+PROPS["C44"] = dict(
+    family="watch", level="model_checking", design_ref="4.1", base=_watch_base,
+    technique="TLA+ model of watch.go's goroutines/mutexes/capacity-1 channels checked by TLC (safety incl. NeverLost/Monotone, liveness LatestCompiled/LatestDelivered under fairness); hook traces of the real watcher validated by TLC: atomic steps must be D2Watch actions, interval facts for the rest",
+    rule=_watch_rule + "at least one change and one live client at quiescence.",
+    exhaustive=dict(quick=False, thorough=False), assumptions=_watch_assume,
+    text="All interleavings of 2 clients x 2-3 versions are model-checked (safety and liveness); recorded executions of the real watcher under perturbed schedules are checked step by step against the same module.",
+    note="Trusted: TLC, Json module, the hook placement in d2cli/watch.go, the harness websocket client.")
+PROPS["C45"] = dict(
+    family="watch", level="model_checking", design_ref="4.1", base=_watch_base,
+    technique="TLA+ model of admission/registration/wait-group/shutdown checked by TLC (WgCounts, ClosedMeansAllFinished, NoAdmitAfterClosing, NoWgChangeAfterClosed, ShutdownCompletes); hook traces of the real watcher incl. shutdown racing with dials/hang-ups validated by TLC, plus goroutine/connection leak observations",
+    rule=_watch_rule + "the watcher was shut down (every trace).",
+    exhaustive=dict(quick=False, thorough=False), assumptions=_watch_assume,
+    text="Same model and traces as C44; the C45 invariants are evaluated on the replayed wait-group/handler state at every step and on what the harness observes after Run returns.",
+    note="Trusted: TLC, Json module, hook placement, runtime.Stack based handler-leak detection.")
+
+
 # ------------------------------------------------------------------------------- manifest data
-HOOK_COMMITS = []
+HOOK_COMMITS = ["9d004ebd4", "879b5d739"]
 
 ENGINES = {
+    "TraceD2Watch": dict(path="specs/D2Watch.tla, specs/TraceD2Watch.tla", kind="TLA+ model of d2 --watch concurrency (TLC safety+liveness) + TLC trace validation of hook traces of the real watcher (D2Watch instantiated over the replayed state)"),
     "TraceFSWrite": dict(path="specs/FSOps.tla, specs/FSWrite.tla, specs/BoardPaths.tla, specs/TraceFSWrite.tla", kind="TLA+ POSIX file-system model + write protocols with Crash (TLC), board-to-file path derivation (TLC), TLC validation of strace-recorded system calls of the real d2 binary"),
     "TraceD2Anim": dict(path="specs/D2Anim.tla, specs/AnimOps.tla, specs/TraceD2Anim.tla", kind="TLA+ clock model of the animated SVG cycle (TLC, safety+liveness) + TLC trace validation of the key frames emitted by d2animate.Wrap"),
 }
